@@ -201,6 +201,53 @@ impl Database {
     }
 }
 
+/// Verification hooks (see /verif): access to the pieces `run` is made of.
+#[cfg(risinglight_verif)]
+impl Database {
+    pub fn verif_catalog(&self) -> RootCatalogRef {
+        self.catalog.clone()
+    }
+
+    pub fn verif_storage(&self) -> StorageImpl {
+        self.storage.clone()
+    }
+
+    /// The optimizer `run` would use now (statistics and engine configuration included).
+    pub async fn verif_optimizer(&self) -> Result<crate::planner::Optimizer, Error> {
+        Ok(crate::planner::Optimizer::new(
+            self.catalog.clone(),
+            self.get_storage_statistics().await?,
+            crate::planner::Config {
+                enable_range_filter_scan: self.storage.support_range_filter_scan(),
+                table_is_sorted_by_primary_key: self.storage.table_is_sorted_by_primary_key(),
+            },
+        ))
+    }
+
+    /// Binds every statement of `sql` without executing anything.
+    pub fn verif_bind(&self, sql: &str) -> Result<Vec<RecExpr>, Error> {
+        let mut plans = vec![];
+        for stmt in parse(sql)? {
+            let mut binder = crate::binder::Binder::new(self.catalog.clone());
+            plans.push(binder.bind(stmt).map_err(|e| e.with_sql(sql))?);
+        }
+        Ok(plans)
+    }
+
+    /// Executes a plan as it is (no optimization).
+    pub async fn verif_run_plan(
+        &self,
+        plan: &RecExpr,
+    ) -> Result<Vec<crate::array::DataChunk>, Error> {
+        let optimizer = self.verif_optimizer().await?;
+        let executor = match self.storage.clone() {
+            StorageImpl::InMemoryStorage(s) => crate::executor::build(optimizer, s, plan),
+            StorageImpl::SecondaryStorage(s) => crate::executor::build(optimizer, s, plan),
+        };
+        Ok(executor.try_collect().await?)
+    }
+}
+
 /// The error type of database operations.
 #[derive(thiserror::Error, Debug)]
 pub enum Error {
